@@ -1,13 +1,13 @@
 SPECIFICATION Spec
 CONSTANT Pushers = {1, 2}
-CONSTANT Poppers = {3, 4}
+CONSTANT Poppers = {4}
+CONSTANT Specifics = {3}
 CONSTANT NLanes = 2
-CONSTANT PushN <- PN2
-CONSTANT Specifics = {}
-CONSTANT SpecN = 0
-CONSTANT Tag <- TagN
-CONSTANT Accessor = "front"
-CONSTANT PopN = 2
+CONSTANT PushN <- PN21
+CONSTANT PopN = 1
+CONSTANT SpecN = 2
+CONSTANT Tag <- TagC
+CONSTANT Accessor = "back"
 INVARIANT NoDup
 INVARIANT NoStrand
 INVARIANT NoLoss
